@@ -8,7 +8,8 @@ RULE = ("cases = (number of fields 1..3, common length, selector / concatenation
         "oracle = the same selector applied to every field array separately; non-trivial = at least two fields and length >= 2")
 ASSUMPTIONS = ["oracle: numpy indexing / concatenation of each field array on its own", "field contents are distinct per field and row so a misaligned entry is visible"]
 REQUIRED_FEATURES = ["three_fields", "two_dim_field", "zero_length", "mask_selector", "list_with_repeats", "mismatch_refused", "varlen_widths_differ",
-                     "concat_triple", "single_entry", "astype_reordered_fields", "equality_other_field_shape", "inherited_class"]
+                     "concat_triple", "single_entry", "astype_reordered_fields", "equality_other_field_shape", "inherited_class",
+                     "two_dim_first_field", "index_array_selector"]
 BOUNDS = {"quick": "1-3 fields (1-D int, 2-D int, 1-D float) x length 0..4 x {every int, 27 slices, lists of length<=2 incl. empty, every mask} + iteration, "
                    "concatenate pairs and triples with lengths 0..3, equality, astype to a narrower class, fields one entry longer/shorter; VarLenArray "
                    "concatenation widths 1..3 x lengths 0..2 (pairs) and triples",
@@ -54,6 +55,17 @@ def fields(k, n, off=0):
     return [np.arange(n) + 10 * off, (np.arange(2 * n) + 100 + 10 * off).reshape(n, 2), (np.arange(n) * 0.5 - off)][:k]
 
 
+LAYOUTS = {"21": (2, 0), "22": (2, 2), "23": (2, 3), "212": (2, 0, 2), "122": (0, 2, 2)}      # field widths; 0 = a 1-D field
+
+
+def fields2(lay, n, off=0):
+    out = []
+    for j, w in enumerate(LAYOUTS[lay]):
+        base = 100 * (j + 1) + 10 * off
+        out.append(np.arange(n) + base if w == 0 else (np.arange(w * n) + base).reshape(n, w))
+    return out
+
+
 def shards(tier):
     nmax = 4 if tier == "quick" else 6
     return [{"k": k, "n": n} for k in (1, 2, 3) for n in range(nmax + 1)] + [{"vla": 1}]
@@ -85,6 +97,30 @@ def cases(shard, tier):
         yield ["get", k, n, ["m", list(m)]]
         if n:
             yield ["get", k, n, ["lb", list(m)]]
+    # the same selectors as index ARRAYS / numpy scalars
+    for i in range(-n, n):
+        yield ["get", k, n, ["n", i]]
+    for kk in range(lmax + 1):
+        for t in itertools.product(range(-n, n), repeat=kk):
+            yield ["get", k, n, ["a", list(t)]]
+    # other field layouts: a 2-D first field, several 2-D fields of equal / different widths
+    if k == 1:
+        for lay in LAYOUTS:
+            for i in range(-n, n):
+                yield ["get2", lay, n, ["i", i]]
+                yield ["get2", lay, n, ["n", i]]
+            for sl in (["s", None, None, None], ["s", None, None, -1], ["s", 1, None, 2], ["s", -1, None, None], ["s", 1, -1, None]):
+                yield ["get2", lay, n, sl]
+            for kk in range(3):
+                for t in itertools.product(range(-n, n), repeat=kk):
+                    yield ["get2", lay, n, ["l", list(t)]]
+                    yield ["get2", lay, n, ["a", list(t)]]
+            for m in itertools.product([0, 1], repeat=n):
+                yield ["get2", lay, n, ["m", list(m)]]
+                if n:
+                    yield ["get2", lay, n, ["lb", list(m)]]
+            yield ["iter2", lay, n]
+            yield ["cat2", lay, n]
     yield ["iter", k, n]
     for m in range(0, 4):
         yield ["cat", k, n, m]
@@ -112,10 +148,51 @@ def _cmp(acc, name, exp, f):
         acc.fail(name, exp, o)
 
 
+def _check_layout(case, acc):
+    from mc import dsl
+    C = _classes()
+    kind, lay, n = case[0], case[1], case[2]
+    f = fields2(lay, n)
+    K = C[len(f)]
+    names = ["a", "b", "c"][:len(f)]
+    mk = lambda: K(*[x.copy() for x in f])
+    acc.feature("two_dim_first_field")
+    acc.state((lay, n))
+    if n >= 2:
+        acc.nontrivial()
+    if kind == "get2":
+        sel = case[3]
+        s = dsl.dec(sel)
+        s2 = np.array([], dtype=int) if isinstance(s, list) and len(s) == 0 else (np.array(s, dtype=bool) if sel[0] == "lb" else s)
+        e = [x[s2].tolist() for x in f]
+        if sel[0] in ("i", "n"):
+            _cmp(acc, f"layout {lay}: obj[int]", e, lambda: [np.asarray(getattr(mk()[s], nm)).tolist() for nm in names])
+        else:
+            if sel[0] == "a":
+                acc.feature("index_array_selector")
+            _cmp(acc, f"layout {lay}: obj[{sel[0]}]", e, lambda: tup(mk()[s]))
+            _cmp(acc, f"layout {lay}: len(obj[sel])", len(e[0]), lambda: len(mk()[s]))
+    elif kind == "iter2":
+        e = [[x[i].tolist() for x in f] for i in range(n)]
+        _cmp(acc, f"layout {lay}: iter", e, lambda: [[np.asarray(getattr(x, nm)).tolist() for nm in names] for x in mk()])
+        _cmp(acc, f"layout {lay}: len", n, lambda: len(mk()))
+    else:
+        f2 = fields2(lay, 2, 1)
+        _cmp(acc, f"layout {lay}: concatenate", [np.concatenate([x, y, x]).tolist() for x, y in zip(f, f2)],
+             lambda: tup(np.concatenate([mk(), K(*[x.copy() for x in f2]), mk()])))
+        _cmp(acc, f"layout {lay}: equality-self", True, lambda: bool(mk() == mk()))
+        if n:
+            g = [x.copy() for x in f]
+            g[-1] = g[-1] + 1
+            _cmp(acc, f"layout {lay}: equality-last-field-differs", False, lambda: bool(mk() == K(*g)))
+
+
 def check(case, acc):
     kind = case[0]
     if kind == "vla":
         return _check_vla(case, acc)
+    if kind in ("get2", "iter2", "cat2"):
+        return _check_layout(case, acc)
     C = _classes()
     k, n = case[1], case[2]
     K = C[k]
@@ -140,7 +217,9 @@ def check(case, acc):
         if case[3][0] == "l" and len(set(case[3][1])) < len(case[3][1]):
             acc.feature("list_with_repeats")
         e = [x[s2].tolist() for x in f]
-        if case[3][0] == "i":
+        if case[3][0] == "a":
+            acc.feature("index_array_selector")
+        if case[3][0] in ("i", "n"):
             acc.feature("single_entry")
             _cmp(acc, "obj[int]", e, lambda: [np.asarray(getattr(mk()[s], nm)).tolist() for nm in names])
         else:
